@@ -4,6 +4,7 @@ import CookModel.Lemmas.MetaAgree
 import CookModel.Lemmas.CollectorAgree
 import CookModel.Lemmas.MetaFront
 import CookModel.Lemmas.MetaDiagsParser
+import CookModel.Lemmas.MetaDiagsFront
 /-
   C14  Metadata-only parsing agrees with full parsing.
 
@@ -289,15 +290,39 @@ theorem C14_agree (env : Env) (input : Str)
     every warning event of either parser is a parse-stage diagnostic (`pullEvents_warnOK`), and the
     diagnostics a `Metadata` event causes depend only on the metadata collected so far
     (`sd_metadataA`).
-    Partial: inputs WITH front matter are not covered; there the full parser still reports
-    `config-*` diagnostics for `>> [key]: value` lines under MODES, which the metadata-only parser
-    never sees, so only the other three kinds can agree (not proved here). -/
+    Partial: inputs WITH front matter are not covered, and cannot be for the two `config-*` kinds:
+    there the full parser still reports them for `>> [key]: value` lines under MODES, which the
+    metadata-only parser never sees.  The other three kinds agree for every input:
+    `C14_std_metadata_diagnostics_agree`. -/
 theorem C14_metadata_diagnostics_agree_partial (env : Env) (input : Str)
     (h : parseFrontmatter env.cs input = none)
     (r1 r2 : Col α) (h1 : (parseRecipe (α := α) env input).output = some r1)
     (h2 : (parseMetadata (α := α) env input).output = some r2) :
     r1.diags.toList.filter Diag.isMeta = r2.diags.toList.filter Diag.isMeta :=
   congrArg MD.ds (analysis_agree_md env input h r1 r2 h1 h2)
+
+/-- For EVERY input (with or without front matter), every extension set and environment: whenever
+    both `parse` and `parse_metadata` have output, the analysis diagnostics about `>>` metadata
+    VALUES — `std-unsupported-value`, `time-overridden`, `meta-deprecated` (`Diag.isStdMeta`) —
+    are the same in both reports (severity, labels, order).  Without front matter this is a part of
+    `C14_metadata_diagnostics_agree_partial`; with front matter neither analysis reports one for a
+    `>>` line (`C14_front_matter_no_std_diagnostics`), the config entries the full parser still
+    processes report `config-*` kinds only.  (Diagnostics about the CONTENT of the YAML block come
+    from `serde_yaml`/`check_std_entry` on the decoded mapping, outside the model; both entry
+    points run that on the same slice from the same state.) -/
+theorem C14_std_metadata_diagnostics_agree (env : Env) (input : Str)
+    (r1 r2 : Col α) (h1 : (parseRecipe (α := α) env input).output = some r1)
+    (h2 : (parseMetadata (α := α) env input).output = some r2) :
+    r1.diags.toList.filter Diag.isStdMeta = r2.diags.toList.filter Diag.isStdMeta :=
+  congrArg Prod.snd (analysis_agree_sd env input r1 r2 h1 h2)
+
+/-- with front matter, the full analysis reports no `std-unsupported-value`, `time-overridden` or
+    `meta-deprecated` diagnostic for any `>>` line -/
+theorem C14_front_matter_no_std_diagnostics (env : Env) (input : Str) (fm : FrontMatter)
+    (h : parseFrontmatter env.cs input = some fm) (r1 : Col α)
+    (h1 : (parseRecipe (α := α) env input).output = some r1) :
+    r1.diags.toList.filter Diag.isStdMeta = [] :=
+  congrArg Prod.snd (analysis_front_full_sd env input fm h r1 h1)
 
 /-- the pieces, as statements about the collector: (1) an event that is neither `Metadata` nor front
     matter (a parser warning being a parse-stage diagnostic) adds no metadata diagnostic … -/
@@ -328,6 +353,8 @@ example : Diag.isMeta ⟨.warning, .analysis, "meta-deprecated", [⟨0, 7⟩]⟩
     Diag.isMeta ⟨.warning, .analysis, "std-unsupported-value", []⟩ = true ∧
     Diag.isMeta ⟨.warning, .analysis, "redundant-new", []⟩ = false ∧
     Diag.isMeta ⟨.warning, .parse, "empty-metadata-value", []⟩ = false := by decide
+example : Diag.isStdMeta ⟨.warning, .analysis, "time-overridden", [⟨0, 7⟩]⟩ = true ∧
+    Diag.isStdMeta ⟨.warning, .analysis, "config-unknown-key", []⟩ = false := by decide
 
 /-! non-vacuity of the front-matter case.  (`lexFrom` is defined by well-founded recursion, so whole
     inputs with a non-empty cooklang part do not reduce by `rfl`; the pieces do.) -/
